@@ -128,7 +128,7 @@ def cnv_IDREF(attribute, arg, element):
 def cnv_integer(attribute, arg, element):
     return str(arg)
 
-pattern_language = re.compile(r'[a-zA-Z]{1,8}(-[a-zA-Z0-9]{1,8})*')
+pattern_language = re.compile(r'[a-zA-Z]{1,8}(-[a-zA-Z0-9]{1,8})*\Z')
 
 def cnv_language(attribute, arg, element):
     global pattern_language
@@ -141,7 +141,7 @@ def cnv_legend_position(attribute, arg, element):
         raise ValueError( "'%s' not allowed" % str(arg))
     return str(arg)
 
-pattern_length = re.compile(r'-?([0-9]+(\.[0-9]*)?|\.[0-9]+)((cm)|(mm)|(in)|(pt)|(pc)|(px))')
+pattern_length = re.compile(r'-?([0-9]+(\.[0-9]*)?|\.[0-9]+)((cm)|(mm)|(in)|(pt)|(pc)|(px))\Z')
 
 def cnv_length(attribute, arg, element):
     """ A (positive or negative) physical length, consisting of magnitude and unit, in conformance with the
@@ -177,7 +177,7 @@ def cnv_major_minor(attribute, arg, element):
         raise ValueError( "'%s' is not either 'minor' or 'major'" % arg)
     return str(arg)
 
-pattern_namespacedToken = re.compile(r'[0-9a-zA-Z_]+:[0-9a-zA-Z._\-]+')
+pattern_namespacedToken = re.compile(r'[0-9a-zA-Z_]+:[0-9a-zA-Z._\-]+\Z')
 
 def cnv_namespacedToken(attribute, arg, element):
     global pattern_namespacedToken
@@ -222,7 +222,7 @@ def cnv_NCNames(attribute, arg, element):
 def cnv_nonNegativeInteger(attribute, arg, element):
     return str(arg)
 
-pattern_percent = re.compile(r'-?([0-9]+(\.[0-9]*)?|\.[0-9]+)%')
+pattern_percent = re.compile(r'-?([0-9]+(\.[0-9]*)?|\.[0-9]+)%\Z')
 
 def cnv_percent(attribute, arg, element):
     global pattern_percent
@@ -231,7 +231,7 @@ def cnv_percent(attribute, arg, element):
     return arg
 
 # Real one doesn't allow floating point values
-pattern_points = re.compile(r'-?[0-9]+,-?[0-9]+([ ]+-?[0-9]+,-?[0-9]+)*')
+pattern_points = re.compile(r'-?[0-9]+,-?[0-9]+([ ]+-?[0-9]+,-?[0-9]+)*\Z')
 #pattern_points = re.compile(r'-?[0-9.]+,-?[0-9.]+([ ]+-?[0-9.]+,-?[0-9.]+)*')
 def cnv_points(attribute, arg, element):
     global pattern_points
@@ -277,7 +277,7 @@ def cnv_time(attribute, arg, element):
 def cnv_token(attribute, arg, element):
     return str(arg)
 
-pattern_viewbox = re.compile(r'-?[0-9]+([ ]+-?[0-9]+){3}$')
+pattern_viewbox = re.compile(r'-?[0-9]+([ ]+-?[0-9]+){3}\Z')
 
 def cnv_viewbox(attribute, arg, element):
     global pattern_viewbox
